@@ -8,6 +8,7 @@ import (
 	"runtime/debug"
 	"strings"
 
+	"verif/harness/internal/gen"
 	"verif/harness/internal/run"
 
 	"github.com/itchyny/gojq"
@@ -305,5 +306,26 @@ func init() {
 	})
 }
 
-// c07Generated is replaced when the core-grammar generator is available.
-var c07Generated = func(c *run.Ctx) {}
+// c07Generated adds PRNG-generated core-grammar programs (finite and looping) to the pool.
+var c07Generated = func(c *run.Ctx) {
+	r := c.Rand("c07.g1")
+	small := gen.USmall()
+	n := c.N(600, 8000)
+	for i := 0; i < n; i++ {
+		g := &gen.G1{R: r, Updates: 1}
+		src := g.Program(2 + r.IntN(3))
+		switch r.IntN(6) {
+		case 0:
+			src = "repeat(" + src + ")"
+		case 1:
+			src = "[limit(7; repeat(" + src + "))]"
+		case 2:
+			src = "path(" + src + ")?"
+		}
+		opt := ""
+		if r.IntN(5) == 0 {
+			opt = "query"
+		}
+		kC07.Do(c, c07Case{Src: src, Input: run.TV{V: small[r.IntN(len(small))]}, Opt: opt})
+	}
+}
